@@ -88,7 +88,7 @@ Section Idem.
     par c1 = Some u -> par c2 = Some u -> aos par c1 d -> aos par c2 d -> c1 = c2.
   Proof.
     intros P1 P2 H1 H2.
-    destruct (anc_linear par c1 c2 d H1 H2) as [[E | H] | [E | H]]; auto; exfalso.
+    destruct (anc_linear par c1 c2 d H1 H2) as [[E | H] | [E | H]]; try congruence; exfalso.
     - apply anc_inv in H as [q [Hq Hcq]]. rewrite P2 in Hq. inversion Hq; subst.
       apply (anc_irrefl par depth depth_dec c1). eapply aos_anc_trans; [exact Hcq|].
       apply anc_par; exact P1.
@@ -114,9 +114,9 @@ Section Idem.
     destruct (descend u c1 s1 Hu P1 Hs1 Hc1) as [d1 [R1 [A1 [B1 K1]]]].
     destruct (descend u c2 s2 Hu P2 Hs2 Hc2) as [d2 [R2 [A2 [B2 K2]]]].
     apply (nlin_two rparP nodes smp fuel rnodes_complete nodes_nodup u d1 d2); auto.
-    - intros ->. apply Hne. eapply subtree_disjoint; eauto.
-    - eapply hsb2_of; eauto.
-    - eapply hsb2_of; eauto.
+    - intros E. subst d2. apply Hne. apply (subtree_disjoint u c1 c2 d1); assumption.
+    - apply (hsb2_of d1 s1); assumption.
+    - apply (hsb2_of d2 s2); assumption.
   Qed.
 
   Lemma nlin2_one u : keptP u = true -> 1 <= nlinP u -> 1 <= nlin2 u.
@@ -126,7 +126,7 @@ Section Idem.
     apply hsbP_iff in H1 as [s [Hs Hc]].
     destruct (descend u c s Hu P1 Hs Hc) as [d [R [A [B K]]]].
     apply (nlin_one rparP nodes smp fuel rnodes_complete u d); auto.
-    eapply hsb2_of; eauto.
+    apply (hsb2_of d s); assumption.
   Qed.
 
   (* (d) *)
@@ -145,10 +145,11 @@ Section Idem.
           pose proof (nlin2_one u Ek H) as H2. apply Nat.leb_le in H2.
           rewrite Hu, H2. simpl. rewrite orb_true_r. reflexivity.
       + apply andb_true_iff in H as [H Hh]. apply andb_true_iff in H as [Hr Hn].
-        rewrite Hr. rewrite hsb2_eq, Ek, Hh.
         assert (Hn2 : is_none (rparP u) = true).
         { unfold rpar. rewrite Ek. destruct (par u); [discriminate | reflexivity]. }
-        rewrite Hn2. simpl. apply orb_true_r.
+        apply orb_true_iff. right. apply andb_true_iff. split.
+        * apply andb_true_iff. split; assumption.
+        * rewrite hsb2_eq, Ek, Hh. reflexivity.
     - unfold kept, kept1, root_rule. rewrite (nlin2_unkept u Ek). rewrite hsb2_eq, Ek.
       simpl. rewrite !andb_false_r. rewrite !orb_false_r.
       destruct (mem u smp) eqn:Em; [|reflexivity].
